@@ -1318,6 +1318,7 @@ func checkC19(c *Check) {
 	c19ClosedNotReturned(c, "R17")
 	c19CommittedNotAborted(c, "R18")
 	c19UsableRefusesClosed(c, "R19")
+	c19BucketCapacityNotNegative(c, "R20")
 }
 
 // R8: the pool never waits on a bucket. A bucket channel is bounded (the idle-count limit, possibly 0); a send that
